@@ -93,6 +93,12 @@ def run(ctx):
             if known(v) and isinstance(v, int):
                 return ("number", v)
             o = hirq.origin(send, a)
+            if o.get("from") in ("match", "iflet"):
+                # match global.parent_session_id { Some(sid) => send_to_session(.., sid, ..), None => <error path> }
+                scr = o.get("scrutinee") if o.get("from") == "match" else o.get("init")
+                pat = (o.get("arm") or {}).get("pat") or (o.get("node") or {}).get("pat") or {}
+                if scr is not None and global_field_expr(peel(scr), "parent_session_id") and str(pat.get("r", {}).get("p", "")).endswith("::Some"):
+                    return ("parent", None)
             x = o.get("expr") if o.get("from") == "expr" else None
             if x is not None and x.get("k") == "match":
                 # let session_id = match child_sessions.get(invokeid) { Some(session) => session.session_id, None => return }
